@@ -305,6 +305,11 @@ class SupervisorNamespaceRPCInterface:
             raise RPCError(Faults.FAILED,
                            "%s is in an unknown process state" % name)
 
+        if process.get_state() == ProcessStates.STOPPING:
+            # spawn() refuses while the previous child is still being
+            # stopped; don't claim that a child was started
+            raise RPCError(Faults.ABNORMAL_TERMINATION, name)
+
         process.spawn()
 
         # We call reap() in order to more quickly obtain the side effects of
